@@ -372,19 +372,20 @@ func entriesToken(es []*packet.LSPEntry) string {
 	return join(xs, "|")
 }
 
-// genEntries: n LSP entries; more than 12 entries get pairwise distinct sort keys (system id, pseudonode id):
+// genEntries: n LSP entries; more than 12 entries get pairwise distinct sort keys (the 8 bytes of the LSP ID):
 // sort.Slice is not stable for longer slices and the order of equal keys is not part of the property
 func genEntries(r *hx.RNG, n int) []*packet.LSPEntry {
 	es := make([]*packet.LSPEntry, 0, n)
-	seen := map[[7]byte]bool{}
+	seen := map[[8]byte]bool{}
 	for len(es) < n {
 		e := rentry(r)
 		if n > 12 {
 			e.LSPID.SystemID[4] = byte(r.Intn(256))
 			e.LSPID.SystemID[5] = byte(r.Intn(256))
-			var k [7]byte
+			var k [8]byte
 			copy(k[:], e.LSPID.SystemID[:])
 			k[6] = e.LSPID.PseudonodeID
+			k[7] = e.LSPID.LSPNumber
 			if seen[k] {
 				continue
 			}
